@@ -133,7 +133,10 @@ def mutated_between(body, key, from_bb, site_bb):
     if key[0] != "local":
         return False
     local = key[1]
-    region = {x for x in body.reach([from_bb]) if site_bb in body.reach([x])}
+    # blocks on a way from the search to the use that does not pass the search again (in a loop every block reaches
+    # every other; what matters is the same pass)
+    fwd = set(body.reach([from_bb], avoid=[site_bb])) | {from_bb}
+    region = {x for x in fwd if x == from_bb or site_bb in body.reach([x], avoid=[from_bb])}
     for b in region:
         for s in body.stmts(b):
             if "lhs" not in s:
@@ -783,8 +786,91 @@ def search_offset_guard(body, bb, t, kind):
     return f"offset is the {names[0]}() hit on the same, unmodified {'string' if kind == 'split_at' else 'vector'}"
 
 
+def ascii_match_tail(body, op):
+    """is the &str operand the tail `.1` of `x.split_at(h)` where h is the find() / rfind() hit of a pattern made of
+    ASCII characters only on the same x?  Such a tail is not empty and starts with a one-byte character"""
+    pl = op_place(op)
+    for _ in range(6):
+        if pl is None:
+            return False
+        if pl[1] and [p for p in pl[1] if p != "*"] == [".1"]:
+            d = body.single_def(pl[0])
+            if not d or d[1] != R.TERM or "fn" not in d[2] or not Callee(d[2]["fn"]).path.endswith("<impl str>::split_at"):
+                return False
+            k, cb = _search_origin(body, d[2]["args"][1], ("find", "rfind"))
+            if k is None or k != value_key(body, d[2]["args"][0]):
+                return False
+            ft = body.term(cb)
+            if len(ft.get("args", [])) < 2:
+                return False
+            ch = body.chase(ft["args"][1])
+            chars = None
+            if ch[0] == "rv" and ch[1].get("k") == "aggr" and ch[1].get("ak") == "array":
+                chars = [(op_const(o) or {}).get("char") for o in ch[1]["ops"]]
+            elif ch[0] == "const" and "char" in ch[1]:
+                chars = [ch[1]["char"]]
+            return bool(chars) and all(isinstance(c_, str) and len(c_) == 1 and ord(c_) < 128 for c_ in chars)
+        d = body.single_def(pl[0]) if not [p for p in pl[1] if p != "*"] else None
+        if not d or d[1] == R.TERM:
+            return False
+        rv = d[2]
+        pl = op_place(rv.get("op")) if rv["k"] in ("use", "cast") else (P(rv["place"]) if rv["k"] == "ref" else None)
+    return False
+
+
+def tail_offset_guard(prog, body, bb, t):
+    """`s.split_at(n)` where s starts with a one-byte character (ascii_match_tail) and n is
+    `s[1..].find(p).map_or(s.len(), |i| i + 1)`: the hit i is a char boundary of s[1..], so i + 1 is one of s; s.len()
+    is one too"""
+    recv, off = t["args"][0], t["args"][1]
+    if not ascii_match_tail(body, recv):
+        return None
+    o = R.origin(body, off, carriers={})
+    if o[0] != "call" or "fn" not in o[2] or not Callee(o[2]["fn"]).path.endswith("Option::<T>::map_or") or len(o[2]["args"]) != 3:
+        return None
+    opt, dflt, clo = o[2]["args"]
+    lk, kind = _len_subject(body, dflt)
+    if lk is None or kind != "len" or lk != value_key(body, recv):
+        return None
+    fo = R.origin(body, opt, carriers={})
+    if fo[0] != "call" or "fn" not in fo[2] or Callee(fo[2]["fn"]).path.split("::")[-1] not in ("find", "rfind"):
+        return None
+    so = R.origin(body, fo[2]["args"][0], carriers={})
+    if so[0] != "call" or "fn" not in so[2] or Callee(so[2]["fn"]).decl_path != "std::ops::Index::index":
+        return None
+    if value_key(body, so[2]["args"][0]) != value_key(body, recv):
+        return None
+    ro = R.origin(body, so[2]["args"][1], carriers={})
+    if not (ro[0] == "rv" and str(ro[1].get("adt", "")).endswith("RangeFrom") and const_int(ro[1]["ops"][0]) == 1):
+        return None
+    if closure_adds(prog, body, clo) != 1:
+        return None
+    return "offset is `s[1..].find(..).map_or(s.len(), |i| i + 1)` on a tail that starts with a one-byte character: a char boundary of s"
+
+
+def closure_adds(prog, body, clo_op):
+    """k when the closure operand is `|i| i + k` (k a positive constant), else None"""
+    cid = R.closure_id_of_operand(body, clo_op)
+    cb = prog.bodies.get(cid) if cid is not None else None
+    if cb is None or cb.argc != 2:
+        return None
+    for x, i, s_ in cb.all_stmts():
+        rv = s_.get("rv") or {}
+        if rv.get("k") == "binop" and str(rv.get("op", "")).startswith("Add"):
+            ao = R.origin(cb, rv["a"], carriers={})
+            k = const_int(rv["b"])
+            if ao[0] == "arg" and ao[1] == 2 and isinstance(k, int) and k >= 1:
+                others = [1 for _x, _i, s2 in cb.all_stmts() if (s2.get("rv") or {}).get("k") == "binop" and s2 is not s_]
+                if not others:
+                    return k
+    return None
+
+
 def str_index_guard(body, bb, t):
     """s[..i] / s[i..] where i is the find()/rfind() hit on the same &str"""
+    o1_ = R.origin(body, t["args"][1], carriers={})
+    if o1_[0] == "rv" and str(o1_[1].get("adt", "")).endswith("RangeFrom") and const_int(o1_[1]["ops"][0]) == 1 and ascii_match_tail(body, t["args"][0]):
+        return "s[1..] on the tail of a split at the hit of an ASCII pattern: the tail starts with that one-byte character"
     recv = t["args"][0]
     o = R.origin(body, t["args"][1], carriers={})
     if not (o[0] == "rv" and o[1].get("k") == "aggr" and o[1].get("adt", "").startswith("std::ops::Range")):
